@@ -272,7 +272,7 @@ Proof. exact fresh_per_decision_both. Qed.
 Print Assumptions c13_fresh_per_decision.
 
 (* ===== non-vacuity ===== *)
-Definition ex_hash : value -> string := ctx_hash_model (fun _ _ => "D").
+Definition ex_hash : value -> string := ctx_hash_model (Some (fun _ _ => "D")).
 Definition ex_owner : value :=
   VObj [("rel", VObj [("relation", VStr "owner"); ("subject", VStr "group:g"); ("ctx", VObj [("ip", VStr "x")])])].
 Definition ex_policy : value :=
@@ -331,6 +331,12 @@ Example c13_example_collision :
   allowed_of (fst r) = Some true /\ List.length (f_log (snd r)) = 1 /\
   allowed_of (fst (guard_eval unit (relh_pure (answer only_dates)) builtin_oblig false ex_date_policy req None tt)) = Some false.
 Proof. vm_compute. repeat split; reflexivity. Qed.
+(* with datetimes kept apart from strings the same case asks twice and denies *)
+Example c13_example_collision_repaired :
+  let req := ex_req [("_rebac", VObj [("t", VDate true 0)])] in
+  let r := decide_rel (ctx_hash_model None) (Some only_dates) builtin_oblig false ex_date_policy req None in
+  allowed_of (fst r) = Some false /\ List.length (f_log (snd r)) = 2.
+Proof. vm_compute. split; reflexivity. Qed.
 
 (* the hypotheses of c13_memo_transparent and c13_sync_async_same are satisfiable *)
 Example c13_example_respects_key :
